@@ -2,6 +2,7 @@ SPECIFICATION Spec
 CONSTANTS
   CwdVariant = "code"
   StatGuard = FALSE
+  CcStopsAtExisting = FALSE
   MaxDepth = 4
   Emit = TRUE
 INVARIANT CTypeOK
